@@ -103,6 +103,17 @@ func outcomes(gen string) []outcome {
 		}
 		return nil
 	}, success: true, wantStatus: 202})
+	// a status override no response can carry: a failure for the caller, never a crashed connection
+	for _, st := range []int{99, 1000, 150} {
+		st := st
+		out = append(out, outcome{name: fmt.Sprintf("status-override-impossible-%d", st), apply: func(r *Reply) *common.ErrorResponse {
+			r.Status = st
+			if r.Created != nil {
+				r.Created.Status = st
+			}
+			return nil
+		}, failure: true})
+	}
 	out = append(out, outcome{name: "typed-nil-result", apply: func(r *Reply) *common.ErrorResponse { r.NilResult = true; return nil }, failure: true})
 	seen := map[string]bool{}
 	for mask := 0; mask < 1<<uint(len(errFields)); mask++ {
